@@ -6,6 +6,7 @@ CONSTANTS
   MaxOffer = 2
   MaxLocal = 2
   AllowSelfStop = TRUE
+  ExactOffers = FALSE
   EmitScripts = FALSE
 CONSTRAINT Bound
 VIEW ViewSt
